@@ -1,4 +1,5 @@
-(* C14/ProofsApi.v — call_onnx_api_before_fix: what the strip / restore_before_fix loops do to inputs, initializer order and values. *)
+(* C14/ProofsApi.v — call_onnx_api: what the strip / restore loops do to inputs, initializer order and values
+   (current code: read-only for every outcome; the code before fix 0346f88: exact post-state and refuting witnesses). *)
 From Coq Require Import ZArith List Bool Lia Arith PeanoNat.
 From IRV Require Import Base.Exn Gen.C14Gen C14.Model.
 Import ListNotations.
@@ -179,6 +180,23 @@ Proof.
     + rewrite <- app_assoc. exact IH.
 Qed.
 
+(* ---------- restore of the current code *)
+Lemma restore_fold (g0 : gst) : forall l g,
+  g_inits (fold_left (restore_step g0) l g) = g_inits g ++ l
+  /\ g_inputs (fold_left (restore_step g0) l g) = g_inputs g
+  /\ forall u, g_vals (fold_left (restore_step g0) l g) u = if pmem u l then g_vals g0 u else g_vals g u.
+Proof.
+  induction l as [|v l IH]; intros g.
+  - simpl. rewrite app_nil_r. repeat split; reflexivity.
+  - simpl fold_left. destruct (IH (restore_step g0 g v)) as [Hi [Hn Hv]]. split; [|split].
+    + rewrite Hi. simpl. rewrite <- app_assoc. reflexivity.
+    + rewrite Hn. reflexivity.
+    + intros u. rewrite Hv. simpl pmem. unfold restore_step. simpl g_vals.
+      destruct (Pos.eqb u v) eqn:E.
+      * apply Pos.eqb_eq in E. subst u. simpl. rewrite vupd_same. destruct (pmem v l); reflexivity.
+      * simpl. rewrite vupd_other by (apply Pos.eqb_neq; exact E). reflexivity.
+Qed.
+
 Section ApiProofs.
   Variables (Proto R : Type).
   Variable serialize : gst -> res Proto.
@@ -249,8 +267,8 @@ Section ApiProofs.
     destruct (pmem u (g_inits g)); [apply fill_const | reflexivity].
   Qed.
 
-  (* FULL read-only theorem for the repaired function: every outcome of serialization and of the call *)
-  Lemma api_fixed_readonly g :
+  (* FULL read-only theorem for the current code: every outcome of serialization and of the call *)
+  Lemma api_readonly g :
     NoDup (g_inits g) ->
     let g' := fst (call_fixed g) in
     g_inputs g' = g_inputs g /\ g_inits g' = g_inits g /\ forall u, g_vals g' u = g_vals g u.
@@ -259,10 +277,18 @@ Section ApiProofs.
     destruct (strip_fold (g_inits g) g Hnd) as [Hv [_ [ext He]]]. fold (strip g) in Hv, He.
     assert (K : let g' := restore g (strip g) in
                 g_inputs g' = g_inputs g /\ g_inits g' = g_inits g /\ forall u, g_vals g' u = g_vals g u).
-    { unfold restore. simpl. split; [rewrite He; apply firstn_app_exact|]. split; [reflexivity|].
-      intros u. destruct (pmem u (g_inits g)) eqn:M; [reflexivity|]. rewrite Hv, M. reflexivity. }
+    { unfold restore.
+      destruct (restore_fold g (g_inits g) {| g_inputs := g_inputs (strip g); g_inits := []; g_vals := g_vals (strip g) |})
+        as [Hi [Hn Hvals]].
+      simpl. split; [rewrite Hn; simpl; rewrite He; apply firstn_app_exact|]. split; [rewrite Hi; reflexivity|].
+      intros u. rewrite Hvals. simpl. destruct (pmem u (g_inits g)) eqn:M; [reflexivity|]. rewrite Hv, M. reflexivity. }
     unfold call_onnx_api. destruct (serialize (strip g)); exact K.
   Qed.
+
+  (* the outcome of the call is the outcome of serialization, then of func *)
+  Lemma api_result g :
+    snd (call_fixed g) = match serialize (strip g) with Ok p => func p | Raise e => Raise e end.
+  Proof. unfold call_onnx_api. destruct (serialize (strip g)); reflexivity. Qed.
 End ApiProofs.
 
 (* ---------- witnesses: the code as written is NOT read-only *)
@@ -285,6 +311,7 @@ Definition w_serfail : gst :=
      g_vals := mk_vals [(1%positive, typed (big_t 100)); (2%positive, typed (lazy_bad_t 101))] |}.
 
 Definition run_ok (g : gst) := call_onnx_api_before_fix unit unit lazy_serialize (fun _ => Ok tt) g.
+Definition run_now (g : gst) := call_onnx_api unit unit lazy_serialize (fun _ => Ok tt) g.
 
 Lemma api_order_witness :
   NoDup (g_inits w_order) /\ is_ok (snd (run_ok w_order)) = true
@@ -302,4 +329,12 @@ Lemma api_serfail_witness :
   /\ g_inputs (fst (run_ok w_serfail)) = [10; 1; 2]%positive      (* initializers left among the inputs *)
   /\ g_inits (fst (run_ok w_serfail)) = [2]%positive               (* the big one is gone *)
   /\ value_obs (g_vals (fst (run_ok w_serfail)) 1%positive) = (None, Some 600%Z, Some 1%Z).  (* and lost its tensor *)
+Proof. repeat split; vm_compute; reflexivity. Qed.
+
+(* the same three inputs on the current code: nothing changes *)
+Lemma api_witnesses_now :
+  gst_obs [1; 2; 3; 10]%positive (fst (run_now w_order)) = gst_obs [1; 2; 3; 10]%positive w_order
+  /\ gst_obs [1; 10]%positive (fst (run_now w_shape)) = gst_obs [1; 10]%positive w_shape
+  /\ gst_obs [1; 2; 10]%positive (fst (run_now w_serfail)) = gst_obs [1; 2; 10]%positive w_serfail
+  /\ is_ok (snd (run_now w_serfail)) = false.
 Proof. repeat split; vm_compute; reflexivity. Qed.
